@@ -77,7 +77,37 @@ for name, mod in sorted(sys.modules.items()):
                     except AttributeError:
                         ns[k].append(False)
         mods[name.split(".", 1)[1]] = ns
-print(json.dumps({"steps": steps, "mods": mods}))
+# every imported module is usable with what this import order loaded (nothing further is imported here)
+use = []
+if all(s_ == "ok" for s_ in steps):
+    import io
+    from datetime import timedelta
+    M = lambda n: sys.modules.get("chartparse." + n)
+    def attempt(name, f):
+        try:
+            f()
+            use.append([name, "ok"])
+        except BaseException as e:
+            use.append([name, type(e).__name__ + ": " + str(e)[:120]])
+    SYNC = ["  0 = TS 4", "  0 = B 120000", "  96 = B 60000", "  5 = A 0"]
+    if M("tick"): attempt("tick", lambda: (M("tick").seconds_from_ticks_at_bpm(1, 120.0, 192), M("tick").note_duration_to_ticks(192, M("tick").NoteDuration.EIGHTH_TRIPLET)))
+    if M("time"): attempt("time", lambda: M("time").add(timedelta(0), 1.5))
+    if M("metadata"): attempt("metadata", lambda: M("metadata").Metadata.from_chart_lines(["  Resolution = 192", '  Name = "x"']))
+    if M("exceptions"): attempt("exceptions", lambda: str(M("exceptions").RegexNotMatchError("^a$", "b")))
+    if M("sync"):
+        attempt("sync", lambda: M("sync").SyncTrack.from_chart_lines(192, SYNC))
+        attempt("sync.query", lambda: M("sync").SyncTrack.from_chart_lines(192, SYNC).bpm_events.timestamp_at_tick_no_optimize_return(100))
+    if M("sync") and M("globalevents"):
+        attempt("globalevents", lambda: M("globalevents").GlobalEventsTrack.from_chart_lines(['  7 = E "section a"', '  9 = E "lyric b"', '  9 = E "c"'],
+                                                                                          M("sync").SyncTrack.from_chart_lines(192, SYNC).bpm_events))
+    if M("sync") and M("instrument"):
+        attempt("instrument", lambda: M("instrument").InstrumentTrack.from_chart_lines(
+            M("instrument").Instrument.GUITAR, M("instrument").Difficulty.EXPERT, ["  0 = N 0 0", "  50 = N 1 10", "  50 = S 2 5", "  60 = E solo"],
+            M("sync").SyncTrack.from_chart_lines(192, SYNC).bpm_events))
+    if M("chart"):
+        attempt("chart", lambda: str(M("chart").Chart.from_file(io.StringIO(
+            "[Song]\n{\n  Resolution = 192\n}\n[SyncTrack]\n{\n  0 = TS 4\n  0 = B 120000\n}\n[Events]\n{\n  5 = E \"section a\"\n}\n[ExpertSingle]\n{\n  0 = N 0 0\n  3 = E solo\n}\n"))))
+print(json.dumps({"steps": steps, "mods": mods, "use": use}))
 """
 
 
@@ -85,9 +115,9 @@ def modules():
     return sorted(p.stem for p in (fw.REPO / "chartparse").glob("*.py") if p.stem != "__init__")
 
 
-def run_order(order):
+def run_order(order, flags=()):
     env = dict(os.environ, PYTHONPATH=str(fw.REPO))
-    p = subprocess.run(["/venv/bin/python", "-c", SCRIPT, json.dumps(order)], stdout=subprocess.PIPE,
+    p = subprocess.run(["/venv/bin/python", *flags, "-c", SCRIPT, json.dumps(order)], stdout=subprocess.PIPE,
                        stderr=subprocess.PIPE, env=env, timeout=120)
     try:
         return json.loads(p.stdout.decode().strip().splitlines()[-1])
@@ -119,15 +149,30 @@ def slice(ctx: fw.Ctx) -> fw.Outcome:
         model = [None] * len(orders)
         out.notes.append(f"model driver unavailable: {e}")
     out.exhaustive = True  # first imports and ordered pairs are complete
+    # the interpreter's own switches are part of "a fresh interpreter": every first import also under -O and -OO
+    flagged = [([m], fl) for fl in (("-O",), ("-OO",)) for m in mods]
+    with ThreadPoolExecutor(ctx.jobs) as ex:
+        fres = list(ex.map(lambda of: run_order(*of), flagged))
+    for (o, fl), r in zip(flagged, fres):
+        ok = all(s_ == "ok" for s_ in r["steps"]) and len(r["steps"]) == len(o)
+        unusable = [u for u in r.get("use", []) if u[1] != "ok"]
+        out.case(",".join(o) + fl[0], True, None, tags=["first-import" + fl[0]])
+        if not ok or unusable:
+            out.violation("flag-" + fl[0] + o[0], f"python {fl[0]}: first import of chartparse.{o[0]} " + (f"fails ({r['steps'][-1]})" if not ok else f"leaves {unusable[0][0]} unusable: {unusable[0][1]}"),
+                          {"op": "imports", "order": o, "flags": list(fl)}, observed=r["steps"], promised="importable first under any interpreter switches")
     for o, r, m in zip(orders, results, model):
         key = ",".join(o)
         ok = all(s == "ok" for s in r["steps"]) and len(r["steps"]) == len(o)
         out.case(key, len(o) >= 2, {"order": o, "steps": r["steps"]} if len(o) in (1, 12) else None,
                  tags=[f"len{min(len(o), 4)}", "ok" if ok else "fail"])
         replay = {"op": "imports", "order": o}
+        unusable = [u for u in r.get("use", []) if u[1] != "ok"]
         if not ok:
             out.violation("order-" + key, f"import order {o} fails at step {len(r['steps'])} ({r['steps'][-1]})",
                           replay, observed=r["steps"], promised="every import succeeds")
+        elif unusable:
+            out.violation("use-" + key, f"after import order {o} every import succeeded but {unusable[0][0]} cannot be used: {unusable[0][1]}",
+                          replay, observed=unusable[:3], promised="an imported module works whatever was or was not imported before it")
         else:
             # same names bound to the same objects as in the reference order
             for mod, ns in r["mods"].items():
@@ -158,6 +203,7 @@ def slice(ctx: fw.Ctx) -> fw.Outcome:
 
 
 def replay(ctx: fw.Ctx, data: dict):
-    r = run_order(data["order"])
+    r = run_order(data["order"], tuple(data.get("flags", ())))
     ok = all(s == "ok" for s in r["steps"]) and len(r["steps"]) == len(data["order"])
-    return (not ok), r["steps"]
+    unusable = [u for u in r.get("use", []) if u[1] != "ok"]
+    return (not ok) or bool(unusable), [r["steps"], unusable[:2]]
